@@ -2,7 +2,7 @@
 from ..core.model import Program
 from ..core.report import CheckContext
 from ..core.resolve import Resolver
-from ..rules import inval
+from ..rules import inval, tables
 from .common import run_control
 
 
@@ -15,6 +15,8 @@ def analyse(ctx: CheckContext, p: Program):
     ctx.info["functions_scanned"] = len(funcs)
     inval.check_views(ctx, eng, funcs)
     inval.check_indices(ctx, eng, funcs)
+    # the rebase amount is trustworthy: the returned count is the number of rows the buffer grew by
+    tables.check_insert_count(ctx, p, r)
 
 
 def run(ctx: CheckContext):
